@@ -197,6 +197,7 @@ type Sorts struct {
 	dynOrder []string
 	maps     []*mapSort
 	useF64   bool
+	useBytes bool
 	qual     types.Qualifier
 }
 
@@ -294,6 +295,10 @@ func intRange(t types.Type) (lo, hi *big.Int, ok bool) {
 }
 
 func (S *Sorts) sortOf(t types.Type) string {
+	if n, ok := t.(*types.Named); ok && n.Obj().Name() == "verifBytes" {
+		S.useBytes = true
+		return "Bytes"
+	}
 	switch u := t.Underlying().(type) {
 	case *types.Basic:
 		switch {
@@ -416,6 +421,10 @@ func (S *Sorts) prelude() string {
 	}
 	dyn.WriteString(")")
 	bodies = append(bodies, dyn.String())
+	if S.useBytes {
+		names = append(names, "(Bytes 0)")
+		bodies = append(bodies, "((mkbytes (barr (Array Int Int)) (blen Int)))")
+	}
 	for _, s := range S.structs {
 		names = append(names, "("+s.name+" 0)")
 		var b strings.Builder
